@@ -4,8 +4,9 @@
 // packages. Nothing under /repo is modified.
 //
 // conf lines:
-//   rewrite <pkgdir> <import> <replacement>
-//   add <pkgdir> <file under /verif>
+//
+//	rewrite <pkgdir> <import> <replacement>
+//	add <pkgdir> <file under /verif>
 package main
 
 import (
